@@ -44,6 +44,7 @@ pub enum CompileResult {
     cao_CompileResult_SuperLimitReached,
     cao_CompileResult_AmbigousImport,
     cao_CompileResult_DuplicateModule,
+    cao_CompileResult_BadModuleName,
 }
 
 #[allow(non_camel_case_types)]
@@ -210,6 +211,9 @@ pub unsafe extern "C" fn cao_compile_json(
             }
             CompilationErrorPayload::DuplicateModule(_) => {
                 return CompileResult::cao_CompileResult_DuplicateModule;
+            }
+            CompilationErrorPayload::BadModuleName(_) => {
+                return CompileResult::cao_CompileResult_BadModuleName;
             }
             CompilationErrorPayload::TooManyUpvalues => {
                 return CompileResult::cao_CompileResult_TooManyUpvalues;
